@@ -114,8 +114,8 @@ func readingInterceptors() []resource.WriteOption {
 }
 
 func (pr *proc) msg() *testproto.TestAllTypes { return mkMsg(1 + pr.rnd.n(50)) }
-func (pr *proc) collID() string                { return collIDs[pr.rnd.n(len(collIDs))] }
-func (pr *proc) name() string                  { return rtrNames[pr.rnd.n(len(rtrNames))] }
+func (pr *proc) collID() string               { return collIDs[pr.rnd.n(len(collIDs))] }
+func (pr *proc) name() string                 { return rtrNames[pr.rnd.n(len(rtrNames))] }
 
 func init() {
 	V, C, B, R, W := []string{"val"}, []string{"coll"}, []string{"bus"}, []string{"rtr"}, []string{"wrap"}
